@@ -16,7 +16,7 @@ PID = "C07"
 LEVEL = "exploration"
 RULE = (
     "cases = call-only DAG programs (all-thread nodes, integer priorities) x {plain, reconfigured with "
-    "config_from_dict, executor with target/exclude/root selection}, DAG or AsyncDAG flavour; each case is built and run (max_concurrency=1) "
+    "config_from_dict, executor with target/exclude/root selection}, with 0-2 debug sites and RUN_DEBUG_NODES on or off (pulled-in debug nodes are part of the executor table), DAG or AsyncDAG flavour; each case is built and run (max_concurrency=1) "
     "in 4 processes with different PYTHONHASHSEED; oracle: table == own priority + sum over distinct descendants "
     "(computed by the harness), identical across processes, identical on sub-graphs, and the execution order equals "
     "the unique order of 'take the max compound priority ready node' as long as there is no tie. Phase 1 enumerates "
@@ -29,7 +29,7 @@ ASSUMPTIONS = [
     "and executor.graph.compound_priority (the tables the scheduler reads)",
     "hash seeds explored: 0, 1, 17 and one derived from VERIF_SEED",
 ]
-BUDGET = {"quick": {"shards": 4, "seconds": 45}, "thorough": {"shards": 16, "seconds": 420}}
+BUDGET = {"quick": {"shards": 8, "seconds": 45}, "thorough": {"shards": 16, "seconds": 420}}
 
 _workers: List[subprocess.Popen] = []
 
